@@ -3223,6 +3223,7 @@ unsigned short sexp_double_to_half(double x) {
   b = float_as_int(x)+0x00001000;
   e = (b&0x7F800000)>>23;
   m = b&0x007FFFFF;
+  if (e > 142) return (b&0x80000000)>>16 | 0x7C00;  /* beyond the largest half: infinity */
   return (b&0x80000000)>>16 | (e>112)*((((e-112)<<10)&0x7C00)|m>>13) | ((e<113)&(e>101))*((((0x007FF000+m)>>(125-e))+1)>>1) | (e>143)*0x7FFF;
 }
 #endif
